@@ -205,15 +205,20 @@ def check_2d(ctx, m, rng, full=True, lite=False):
     mask = aa.Mask2D(mask=m.copy(), pixel_scales=(1.0, 2.0))
     idx = np.arange(H * W, dtype=float).reshape(H, W)
     # unique per-cell values (negative set second); masked cells of native inputs carry garbage
-    for sign in ((1.0, -1.0, "int") if full else (1.0,)):
+    signs = (1.0, -1.0, "int") + (("big_endian",) if (int(m.sum()) * 7 + 3 * H + W) % 4 == 0 else ())
+    for sign in (signs if full else (1.0,)):
         if sign == "int":
             nat = (1 + 3 * idx).astype(np.int64)          # integer-typed values (counts, labels): same claims, compared by value
             ctx.classes["integer_typed_values"] += 1
+        elif sign == "big_endian":
+            # values in a non-native byte order (what astropy hands out as hdu.data, np.fromfile(dtype=">f4")): the same numbers
+            nat = (1.0 + idx + 0.25 * rng.random((H, W))).astype(">f8" if (H + W) % 2 else ">f4")
+            ctx.classes["values_in_non_native_byte_order"] += 1
         else:
             nat = sign * (1.0 + idx + 0.25 * rng.random((H, W)))
         exp_slim = nat[~m]
         exp_nat = np.where(m, 0.0, nat)
-        gnat = np.stack([nat, -3 * nat + 1], axis=-1) if sign == "int" else np.stack([nat, -3.0 * nat + 0.5], axis=-1)
+        gnat = np.stack([nat, -3 * nat + 1], axis=-1) if sign == "int" else np.stack([nat, -3.0 * nat + 0.5], axis=-1).astype(nat.dtype if sign == "big_endian" else float)
         gexp_slim = gnat[~m]
         gexp_nat = np.where(m[:, :, None], 0.0, gnat)
         for store_native in (False, True):
@@ -487,9 +492,9 @@ def run_unit(ctx, u):
             m, fam = gen.random_mask(r, H, W)
             ctx.classes["family:" + fam] += 1
             check_2d(ctx, m, r, full=True)
-            # 1-D masks far longer than the exhaustive bound (17 .. 200 pixels)
+            # 1-D masks far longer than the exhaustive bound (17 .. 200 pixels, every 6th 257 .. 700: beyond the small-integer range)
             if i % 2 == 0:
-                L1 = int(r.integers(17, 201))
+                L1 = int(r.integers(17, 201)) if i % 6 else int(r.integers(257, 701))
                 m1 = r.random(L1) < float(r.choice([0.1, 0.5, 0.9]))
                 if m1.all():
                     m1[int(r.integers(L1))] = False
